@@ -1526,6 +1526,10 @@ def _broadcast_arithmetic(op):
     """
     def _broadcast_arithmetic_impl(self, other):
         if (self.space.is_power_space and other in self.space[0]):
+            if op.startswith('__i') and any(other is xi for xi in self):
+                # In-place with one of our own parts as `other`: it changes
+                # while still needed for the remaining parts
+                other = other.copy()
             results = []
             for xi in self:
                 res = getattr(xi, op)(other)
